@@ -336,3 +336,124 @@ func dupsortCycle(R *Result, row dsListRow) error {
 	}
 	return nil
 }
+
+func init() { Commands["converge-kinds"] = cmdConvergeKinds }
+
+// cmdConvergeKinds (C01, non-native mode): "identical application DBIs" for every kind of application DBI - plain,
+// integer keys, duplicate keys (with the dupsort hack) - on a receiver that has to create the DBI, after a first
+// snapshot and after a change made on the receiver has travelled back.
+func cmdConvergeKinds(args []string) error {
+	R := NewResult()
+	prop := "C01"
+	if len(args) > 0 {
+		prop = args[0]
+	}
+	type kind struct {
+		name  string
+		flags uint
+		pairs [][2][]byte
+	}
+	kinds := []kind{
+		{"plain", 0, [][2][]byte{{[]byte("a"), []byte("1")}, {[]byte("b"), []byte("2")}, {[]byte("c"), []byte("3")}}},
+		{"integerkey", lmdb.IntegerKey, [][2][]byte{{U64(1), []byte("one")}, {U64(256), []byte("two")}, {U64(1 << 40), []byte("three")}}},
+		{"dupsort", lmdb.DupSort, [][2][]byte{{[]byte("alpha"), []byte("one")}, {[]byte("alpha"), []byte("two")}, {[]byte("beta"), []byte("x")}}},
+	}
+	for _, k := range kinds {
+		sig := map[string]interface{}{"prop": prop, "class": "app-dbi-kind", "kind": k.name}
+		w, err := NewWorld(false, nil, Concs()[0], KeyConcs()[0], R)
+		if err != nil {
+			return err
+		}
+		w.Bucket = memory.New()
+		for _, i := range []int{1, 2} {
+			if err := w.AddInst(i, false); err != nil {
+				return err
+			}
+			in := w.Insts[i]
+			c := w.config(in.Name)
+			lc := c.LMDBs["default"]
+			lc.DupSortHack = true
+			c.LMDBs["default"] = lc
+			s, err := syncer.New("default", in.Env, w.Bucket, c, lc, syncer.Options{})
+			if err != nil {
+				return err
+			}
+			in.S = s
+		}
+		put := func(i int, p [2][]byte, del bool) error {
+			return w.Insts[i].Env.Update(func(txn *lmdb.Txn) error {
+				dbi, err := txn.OpenDBI("data", lmdb.Create|k.flags)
+				if err != nil {
+					return err
+				}
+				if del {
+					if k.flags&lmdb.DupSort != 0 {
+						return txn.Del(dbi, p[0], p[1])
+					}
+					return txn.Del(dbi, p[0], nil)
+				}
+				return txn.Put(dbi, p[0], p[1], 0)
+			})
+		}
+		flagsOf := func(i int) (fl uint, ok bool) {
+			_ = w.Insts[i].Env.View(func(txn *lmdb.Txn) error {
+				dbi, err := txn.OpenDBI("data", 0)
+				if err != nil {
+					return nil
+				}
+				f, err := txn.Flags(dbi)
+				if err == nil {
+					fl, ok = f, true
+				}
+				return nil
+			})
+			return
+		}
+		same := func(stage string) {
+			R.Add(1, 0, 0)
+			p1, _, _ := readPairs(w.Insts[1].Env, "data")
+			p2, _, _ := readPairs(w.Insts[2].Env, "data")
+			f1, ok1 := flagsOf(1)
+			f2, ok2 := flagsOf(2)
+			if fmt.Sprint(p1.list()) != fmt.Sprint(p2.list()) {
+				R.Bad(map[string]interface{}{"kind": k.name, "stage": stage}, sig, "%s DBI, %s: the application DBIs differ: instance 1 %v, instance 2 %v", k.name, stage, p1.list(), p2.list())
+			} else if !ok1 || !ok2 || f1 != f2 {
+				R.Bad(map[string]interface{}{"kind": k.name, "stage": stage}, sig, "%s DBI, %s: DBI flags differ: %#x (%v) vs %#x (%v)", k.name, stage, f1, ok1, f2, ok2)
+			}
+		}
+		for _, p := range k.pairs {
+			if err := put(1, p, false); err != nil {
+				return err
+			}
+		}
+		if _, err := w.Upload(1); err != nil {
+			R.Bad(k.name, sig, "%s DBI: SendOnce fails: %v", k.name, err)
+			w.Close()
+			continue
+		}
+		if _, err := w.Merge(2, 1, 1); err != nil {
+			R.Bad(k.name, sig, "%s DBI: LoadOnce on a fresh instance fails: %v", k.name, err)
+			w.Close()
+			continue
+		}
+		same("after the first snapshot")
+		// a change on the receiver travels back
+		if err := put(2, k.pairs[0], true); err != nil {
+			R.Bad(k.name, sig, "%s DBI: the receiver cannot delete the first pair: %v", k.name, err)
+			w.Close()
+			continue
+		}
+		if _, err := w.Upload(2); err == nil {
+			if _, err := w.Merge(1, 2, 1); err != nil {
+				R.Bad(k.name, sig, "%s DBI: LoadOnce of the receiver's change fails: %v", k.name, err)
+			} else {
+				same("after a deletion on the receiver travelled back")
+			}
+		} else {
+			R.Bad(k.name, sig, "%s DBI: SendOnce on the receiver fails: %v", k.name, err)
+		}
+		R.Add(0, 1, 1)
+		w.Close()
+	}
+	return Emit(R)
+}
